@@ -204,12 +204,16 @@ def run_shape(repo, rep):
             tz_none = _is(fa, 'None', '%s.tzinfo' % v)
             if ('tzinfo' in kw) != (tz_none is False) or (('tzinfo' in kw) and kw['tzinfo'] != '%s.tzinfo' % v):
                 bad = (pr, 'tzinfo printed=%s although "tzinfo is None" assumed %s' % ('tzinfo' in kw, tz_none))
+            if tz_none is None:
+                bad = (pr, 'tzinfo omitted although the path never established that it is None (an aware value prints as a naive one)')
             fold_on = fa.get('truthy(%s.fold)' % v)
             if fold_on is None:
                 z = _is(fa, '0', '%s.fold' % v)
                 fold_on = None if z is None else (not z)
             if ('fold' in kw) != bool(fold_on):
                 bad = (pr, 'fold printed=%s although fold assumed %s' % ('fold' in kw, fold_on))
+            if fold_on is None:
+                bad = (pr, 'fold omitted although the path never established that it is 0')
             if bad:
                 break
         check(bad is None, name, 'fields', f, 'every field printed from its own attribute, omitted only when 0 / None, in constructor order',
@@ -298,4 +302,39 @@ def run_shape(repo, rep):
                       'pretty_timezone prints %s' % (D.show(t) if t is not None else None))
     except Undecided as e:
         rep.undecided('C07.h', 'pretty_timezone', m.relpath, str(e))
+
+    # ------------------------------------------------------------------ pytz zones
+    # a zone is printed by name - pytz.utc, pytz.timezone(zone) - only on paths that established that this expression is equal to
+    # the value (pytz keeps one canonical object per name; the per-period objects that localize() attaches carry the same name but
+    # are different zones); everything else is rebuilt from its state
+    it.prims['pytz.timezone'] = lambda it_, a, k, nd: Sym('pytz.timezone(%s)' % prov(a[0]))
+    for name in ('pretty_pytz_dst_timezone', 'pretty_pytz_timezone'):
+        if name not in m.funcs:
+            continue
+        try:
+            f, v, prs = paths(name)
+        except Undecided as e:
+            rep.undecided('C07.h', name, m.relpath, str(e))
+            continue
+        rep.count(len(prs))
+        for pr in prs:
+            t = it.as_term(pr.value) if pr.raised is None else None
+            fa = _facts(pr)
+            c = _call(t) if t is not None else None
+            txt = D.text_of(t) if t is not None and c is None else None
+            if txt == 'pytz.utc':
+                ok, want = _is(fa, 'pytz.utc', v) is True, 'pytz.utc == value established'
+            elif c is not None and c.fn == 'ident(pytz.timezone)':
+                ok = c.args == ['%s.zone' % v] and not c.kwargs and \
+                    (name == 'pretty_pytz_timezone' or _is(fa, 'pytz.timezone(%s.zone)' % v, v) is True)
+                want = 'pytz.timezone(value.zone) == value established'
+            elif c is not None and c.fn == 'ident(pytz.tzinfo.DstTzInfo)':
+                ok = c.args == ['[%s._utcoffset,%s._dst,%s._tzname]' % (v, v, v)] and not c.kwargs
+                want = 'rebuilt from (utcoffset, dst, tzname)'
+            else:
+                ok, want = False, 'a by-name expression or the constructor from the state'
+            check(ok, name, 'zone{%s}' % pr.fact_text()[-50:], f, want,
+                  'on the path (%s) %s prints %s although it is not known to denote the value (%s): the printed zone is a different zone - '
+                  'e.g. the LMT period of the name instead of the period attached by localize()' % (
+                      pr.fact_text()[:120], name, D.show(t) if t is not None else (pr.raised.what if pr.raised else None), want))
     return n
